@@ -25,6 +25,102 @@ GEOM_NOTE = ("Bounded: cases over a grid of quarter user units (negative / fract
              "trusted: TLC, runner, expat projection; tolerance = the 3-decimal output rounding.")
 
 CHECKS = {
+    "C01": dict(
+        category="model_checking",
+        text="TLC checks progress and termination of the designs: Scan.tla (every scanner step consumes a token or ends; all "
+             "token-class sequences up to 4-5), Interp.tla (Finishes under weak fairness) and the outcome sets of Totality.tla "
+             "(construct x depth class; XML token sequences x non-UTF-8 position). Every such input plus a seeded byte-mutation "
+             "corpus is run in worker processes with watchdog and memory limit: outcome must be ok or err, never panic / abort / "
+             "hang; traces are validated against TraceStruct.tla; a sample goes through the svgdx command and svgdx-server.",
+        note="Structure is exhausted within bounds, raw bytes are sampled; 'hang' is decided by a watchdog (>= 8 s for small inputs, "
+             "120 s for 20000-fold constructs); stack exhaustion is observed at concrete depths up to 10^5, not proved impossible. "
+             "Debug builds of the binaries are used.",
+        technique="TLC model checking (Scan.tla, Interp.tla, Totality.tla) + replay in sandboxed workers + TLC trace validation",
+        design_ref="DESIGN.md 7 (C01)"),
+    "C02": dict(
+        category="model_checking",
+        text="TLC checks on Text.tla that the design's serialisation of every value source x every string over the "
+             "XML-significant alphabet (length <= 2-3) is well-formed, decodes to the author's value and is idempotent (negative "
+             "controls RawAttr, DoubleEscape), and enumerates document shapes (prolog x children x namespaced); each case is "
+             "replayed under several configurations and the output judged by expat (well-formed, no duplicate attributes, single "
+             "svg root with namespace and version).",
+        note="Sigma abstracts Unicode (one representative per XML-relevant class); expat is trusted.",
+        technique="TLC enumeration + invariants on Text.tla + replay judged by an independent XML parser",
+        design_ref="DESIGN.md 7 (C02)"),
+    "C03": dict(
+        category="model_checking",
+        text="Text.tla (payload fidelity and idempotence for every string at every lexical position) drives documents rooted at "
+             "a namespaced <svg> with payloads in attribute values, character data, CDATA and comments, character references, "
+             "namespaced attributes, PIs, doctype, svgdx-looking content, and embedded namespaced subtrees; oracle: expat infoset "
+             "of input = infoset of output under several configurations; plus examples/*.svg.",
+        note="Attribute order is not part of the infoset. Two narrow listed findings (newline character references in attribute "
+             "values; blanks before a newline in character data).",
+        technique="TLC enumeration on Text.tla + replay with infoset comparison by an independent XML parser",
+        design_ref="DESIGN.md 7 (C03)"),
+    "C04": dict(
+        category="model_checking",
+        text="The SVG 1.1 micro-syntaxes as generative grammars in TLA+: Scan.tla GenSpec derives every path-data token sequence "
+             "up to 9-11 tokens (the same machine C01 checks for progress), SvgSyntax.tla numbers / lengths / points / transform "
+             "lists / references / element vocabulary; each derivation is spelled out (separators omitted where allowed) in an "
+             "svgdx-mode document: transform must succeed and the element tree must be preserved (numbers up to rounding).",
+        note="Plain SVG excludes svgdx syntax by definition; curve / arc bounding boxes are not asserted.",
+        technique="TLC-enumerated grammar derivations (Scan.tla, SvgSyntax.tla) + replay with tree preservation oracle",
+        design_ref="DESIGN.md 7 (C04)"),
+    "C05": dict(
+        category="model_checking",
+        text="Text.tla Idempotent (negative control DoubleEscape) states the lemma; every successfully transformed svg-rooted "
+             "document of the generated corpus (Text.tla sources x strings, Interp.tla programs, examples) is fed back under two "
+             "further configurations and must come back byte for byte.",
+        note="Corpus-based: documents generated by the TLA+ families of the other checks.",
+        technique="TLC invariant on Text.tla + two-step histories replayed on the implementation (bytes compared)",
+        design_ref="DESIGN.md 7 (C05)"),
+    "C06": dict(
+        category="model_checking",
+        text="Styles.tla PermIndependent (emission order independent of hash iteration order; negative control HashOrderLeaks) "
+             "and Frontend.tla Functional; for every key (class sets with several pattern classes, random()/randint() under "
+             "seeds, multi-error documents, examples) a history of observations in fresh processes, threads and repetitions is "
+             "recorded and validated by TLC against TraceFrontend.tla (equal key => equal bytes).",
+        note="Hash seeds cannot be enumerated: 4-6 fresh processes x 7 transforms per key.",
+        technique="TLC model checking (Styles.tla, Frontend.tla) + TLC validation of recorded histories",
+        design_ref="DESIGN.md 7 (C06)"),
+    "C07": dict(
+        category="model_checking",
+        text="Frontend.tla: all interleavings of up to 3 requests over library / server / command (temp file then copy): Agree, "
+             "ErrorsReported, SameFileRefused, FilesSane, Functional, NoDamage, Served; negative controls SharedState, "
+             "WriteInPlace. Real histories (concurrent library transforms in one process, svgdx runs in every in/out mode with "
+             "pre-existing output / failing input / output = input, concurrent HTTP requests to one svgdx-server) are validated "
+             "by TLC against TraceFrontend.tla with T measured by fresh library processes.",
+        note="Crash points inside the file copy are model-only. Server empty-output -> 400 is an allowed named deviation.",
+        technique="TLC model checking of Frontend.tla + TLC validation of recorded front-end histories",
+        design_ref="DESIGN.md 7 (C07)"),
+    "C14": dict(
+        category="model_checking",
+        text="Expr.tla: TLC checks Parse(Unparse(tree)) = tree for every tree in bounds (precedence, left associativity, unary "
+             "minus, non-chaining comparison, word operators, calls) with minimal and redundant parentheses, and that malformed "
+             "strings have no parse; the harness evaluates each exported TREE in f32 and compares with the real evaluator "
+             "(direct entry and document contexts); malformed strings must fail; Interp.tla family rng checks EvalOnce and the "
+             "replay compares PRNG draw counts; a metamorphic pair compares random sequences.",
+        note="IEEE arithmetic delegated to the host f32 conversion and libm (2e-5 relative tolerance for transcendental functions).",
+        technique="TLC model checking of Expr.tla / Interp.tla + differential replay against a tree evaluator",
+        design_ref="DESIGN.md 7 (C14)"),
+    "C19": dict(
+        category="model_checking",
+        text="Text.tla family lines (strings with literal newlines, \\n and its escaped form x 4 carriers; Lines(s)) and Geom.tla "
+             "family textpos (TextAnchor / AlignClasses over shapes x 9 locations x inside/outside x vertical x offsets, with "
+             "identities); replay compares expat-decoded character data of text/tspan with the predicted lines, the anchor and "
+             "classes with the prediction, and checks the shape is unchanged apart from text-specific attributes.",
+        note="Leniencies stated in evidence (zero-width space for empty lines, trailing empty line, outer whitespace of content carriers).",
+        technique="TLC enumeration + invariants (Text.tla, Geom.tla) + replay judged by an independent XML parser",
+        design_ref="DESIGN.md 7 (C19)"),
+    "C20": dict(
+        category="model_checking",
+        text="Styles.tla: for every set of reserved classes (reduced vocabulary) x element kinds x on/off x root/fragment x local "
+             "styles the design Rules / Defs with Minimal, Complete, Closed, NothingWhenOff; replay compares rule and definition "
+             "sets with the prediction and evaluates the same predicates generically over the full vocabulary of the styles "
+             "reference (singles and cross-family pairs x 6 themes); author style/defs must survive.",
+        note="Vocabulary from the styles reference and the SVG colour keyword list, not from the code.",
+        technique="TLC enumeration + invariants on Styles.tla + replay with generic closure / minimality predicates",
+        design_ref="DESIGN.md 7 (C20)"),
     "C08": dict(
         category="model_checking",
         text="TLC enumerates item lists (all element kinds that do / do not contribute) x border x scale x supplied root "
